@@ -7,6 +7,9 @@ From SK Require Import model.C03_Model model.C05_Model proof.C05_Proof proof.C05
 From SK Require Import lib.C06_Spec proof.C06_Comp proof.C06_Main.
 Import ListNotations.
 
+(* the cap of these examples: the engine's default (no embed_threshold given) *)
+#[local] Instance default_thr : Thr := thr_of None.
+
 (** sz: Suzuki-type rule [C:1][Br:2].[B:3][C:4]>>[C:1][C:4].[B:3][Br:2] applied backwards to CCC(C)C.OB(O)Br (the
     design-time witness of the numbering dependence, implicit-hydrogen mode); mt: metathesis on C=C.C=C; ds: disulfide
     formation on SCCS.CS; hx: halogen exchange on BrCCI (one substrate component, two pattern components). *)
@@ -128,16 +131,16 @@ Qed.
 (** ** component-aware matches are exhaustive matches: premises hold and the conclusion is about 4 matches *)
 Example comp_subset_nonvacuous :
   gwf (host_c06 ds_host) /\ gwf (pat_c06 (p_pat ds_p)) /\
-  (comp_bound (C06_Model.monos_on (host_c06 ds_host) (pat_c06 (p_pat ds_p))) true (host_c06 ds_host) (pat_c06 (p_pat ds_p)) <= DEFAULT_THRESHOLD)%N /\
-  (C06_Model.lenN (C06_Model.monos_on (host_c06 ds_host) (pat_c06 (p_pat ds_p)) (node_ids (host_c06 ds_host)) (node_ids (pat_c06 (p_pat ds_p)))) <= DEFAULT_THRESHOLD)%N /\
+  (comp_bound (C06_Model.monos_on (host_c06 ds_host) (pat_c06 (p_pat ds_p))) true (host_c06 ds_host) (pat_c06 (p_pat ds_p)) <= thr_val)%N /\
+  (C06_Model.lenN (C06_Model.monos_on (host_c06 ds_host) (pat_c06 (p_pat ds_p)) (node_ids (host_c06 ds_host)) (node_ids (pat_c06 (p_pat ds_p)))) <= thr_val)%N /\
   length (matches 1%N ds_host (p_pat ds_p)) = 4%nat /\
   (forall m, In m (matches 1%N ds_host (p_pat ds_p)) -> exists m', In m' (matches 0%N ds_host (p_pat ds_p)) /\ Permutation.Permutation m m').
 Proof.
   assert (G1 : gwf (host_c06 ds_host)) by (apply gwfb_spec; vm_compute; reflexivity).
   assert (G2 : gwf (pat_c06 (p_pat ds_p))) by (apply gwfb_spec; vm_compute; reflexivity).
-  assert (B1 : (comp_bound (C06_Model.monos_on (host_c06 ds_host) (pat_c06 (p_pat ds_p))) true (host_c06 ds_host) (pat_c06 (p_pat ds_p)) <= DEFAULT_THRESHOLD)%N)
+  assert (B1 : (comp_bound (C06_Model.monos_on (host_c06 ds_host) (pat_c06 (p_pat ds_p))) true (host_c06 ds_host) (pat_c06 (p_pat ds_p)) <= thr_val)%N)
     by (apply N.leb_le; vm_compute; reflexivity).
-  assert (B2 : (C06_Model.lenN (C06_Model.monos_on (host_c06 ds_host) (pat_c06 (p_pat ds_p)) (node_ids (host_c06 ds_host)) (node_ids (pat_c06 (p_pat ds_p)))) <= DEFAULT_THRESHOLD)%N)
+  assert (B2 : (C06_Model.lenN (C06_Model.monos_on (host_c06 ds_host) (pat_c06 (p_pat ds_p)) (node_ids (host_c06 ds_host)) (node_ids (pat_c06 (p_pat ds_p)))) <= thr_val)%N)
     by (apply N.leb_le; vm_compute; reflexivity).
   split; [exact G1|]. split; [exact G2|]. split; [exact B1|]. split; [exact B2|]. split; [vm_compute; reflexivity|].
   exact (comp_subset_all ds_host (p_pat ds_p) G1 G2 B1 B2).
